@@ -32,17 +32,17 @@ def wrap32(x):
 def generate(rng, tier):
     big = tier == 'thorough'
     inits = [MINI, MINI + 1, -1, 0, 1, MAXI, MAXI - 1, MAXI - 2, MAXI - 65535, MAXI - 65536]
-    inits += [MAXI - rng.randrange(0, 65537) for _ in range(20 if not big else 200)]
-    inits += [rng.randrange(MINI, MAXI + 1) for _ in range(10 if not big else 200)]
-    ns = [0, 1, 2, 3, 4, 65535, 65536, 2**31 - 2, 2**31 - 1] + [rng.randrange(0, 2**31) for _ in range(4 if not big else 30)] \
-        + [rng.randrange(0, 70000) for _ in range(4 if not big else 30)]
+    inits += [MAXI - rng.randrange(0, 65537) for _ in range(20 if not big else 40)]
+    inits += [rng.randrange(MINI, MAXI + 1) for _ in range(10 if not big else 30)]
+    ns = [0, 1, 2, 3, 4, 65535, 65536, 2**31 - 2, 2**31 - 1] + [rng.randrange(0, 2**31) for _ in range(4 if not big else 8)] \
+        + [rng.randrange(0, 70000) for _ in range(4 if not big else 8)]
     cases = []
     for init in inits:
         for n in ns:
             bits_list = range(16, 31) if big else rng.sample(range(16, 31), 3)
             for bits in bits_list:
                 tl = 1 << bits
-                for off in rng.sample([0, 32, tl - 32, tl, 32 * rng.randrange(0, tl // 32)], 2 if not big else 3):
+                for off in rng.sample([0, 32, tl - 32, tl, 32 * rng.randrange(0, tl // 32)], 2):
                     cases.append({'kind': 'pos', 'args': [init, n, bits, off]})
             bits = rng.randrange(16, 31)
             tl = 1 << bits
